@@ -45,12 +45,14 @@ pub fn encrypt_frm_data_payload(
 
     let mut s = [0u8; 16];
 
-    let mut ctr = 1;
+    let mut ctr: u8 = 1;
     for i in 0..len {
         let j = i & 0x0f;
         if j == 0 {
             a[15] = ctr;
-            ctr += 1;
+            // the block counter is one octet on purpose (LoRaWAN A_i blocks); a buffer longer
+            // than 255 blocks is no LoRaWAN payload, but it must not panic either
+            ctr = ctr.wrapping_add(1);
             s = a;
             crypto.encrypt_block(&mut s);
         }
